@@ -650,7 +650,7 @@ func (e *Env) call(ex *Expr) Value {
 		return Scalar{e.quant(q)}
 	case "gh":
 		// ghost field: gh("name", ref)
-		ref := flatten(e.eval(args[1]))
+		ref := flattenSpec(e.eval(args[1]))
 		key := ref[len(ref)-1]
 		m := mapRef{smtName("H!ghost!" + args[0].Name), ArraySort(SInt, SInt)}
 		return Scalar{Select(e.x.heapGet(e.st, m), key)}
@@ -960,6 +960,11 @@ func (e *Env) lvalue(ex *Expr) (PtrV, bool) {
 
 // ptrEq: equality of structured pointers (same root location and the same field path).
 func ptrEq(a, b PtrV) Term {
+	if a.Kind == PHeap && b.Kind == PHeap && len(a.Path) != len(b.Path) && !types.Identical(a.Root, b.Root) {
+		// a reference to a whole object against a location inside another kind of object: the heap
+		// model cannot tell whether the two coincide
+		panic(unsupported("comparison of a plain pointer with an interior pointer (use a binds clause for results that point into other objects)"))
+	}
 	if a.Kind != b.Kind || len(a.Path) != len(b.Path) {
 		return TFalse
 	}
